@@ -48,6 +48,8 @@ type election struct {
 	deleted     map[int]bool
 	swap        bool
 	retried     bool
+	inc         int  // coordinator incarnation that runs this attempt
+	unstored    bool // the attempt began without a Store of its term
 }
 
 // asyncCall: a BecomeLeader / AddFollower request running on a node (it holds the controller lock and may block on
@@ -63,6 +65,8 @@ type asyncCall struct {
 	done      bool
 	err       error
 	blEmitted bool
+	lose      bool // the node processes the request, the coordinator gets an error (response lost / timeout)
+	crashCoord bool // the coordinator dies in its final store after this BecomeLeader succeeded
 	finished  bool // result harvested
 	attached  map[int]bool
 	resps     map[int]*ntResp
@@ -133,12 +137,16 @@ type cluster struct {
 	swapDone           chan error
 	swapInFlight       bool
 	coordStopped       bool
+	parkSteadyStore    bool // the next final store of an election parks (the coordinator dies inside it)
+	storeParked        bool
 	leaderElectedCalls int
 	leaderElectedSeen  int
 	getStatusCalls     int
 	getStatusBad       bool
 	lastStatus         map[int]*proto.GetStatusResponse
 	retryElections     int
+	pendLose, pendCrash bool // flags of the BecomeLeader call about to start
+	swapFrom, swapTo    int
 
 	// outputs
 	steps    []string
@@ -245,7 +253,7 @@ func (c *cluster) startCoordinator() {
 	c.getStatusCalls, c.getStatusBad = 0, false
 	c.mu.Unlock()
 	nc := &model.NamespaceConfig{Name: namespace, InitialShardCount: 1, ReplicationFactor: uint32(len(md.Ensemble))}
-	c.ctl = controllers.NewShardController(namespace, shardId, nc, md, cfgStub{}, &statusRes{c: c}, listenerStub{c}, c.crpc)
+	c.ctl = controllers.NewShardController(namespace, shardId, nc, md, cfgStub{}, &statusRes{c: c, inc: c.coordInc}, listenerStub{c}, c.crpc)
 }
 
 func (c *cluster) teardown() {
@@ -570,7 +578,22 @@ func (c *cluster) harvestStores() {
 			leader = c.idOf(*md.Leader)
 		}
 		c.event("store term=%d status=%v leader=%d ens=%s removed=%s", md.Term, md.Status, leader, intsTok(ens), intsTok(rem))
-		if md.Term > last.Term {
+		if md.Term > last.Term && c.el != nil && c.el.unstored && c.el.inc == c.coordInc && c.el.term == md.Term {
+			// the (only) store of an election that began without one
+			if md.Status == model.ShardStatusSteadyState {
+				c.el.phase = "done"
+			}
+		} else if md.Term == last.Term && md.Status == model.ShardStatusElection && last.Term >= 0 {
+			// another attempt in the term of the previous one
+			c.event("election attempt re-uses term %d", md.Term)
+			c.stats["model-gap:election-term-reused"]++
+			c.skipModel("an election attempt re-uses the term of the previous attempt (every election of the model has its own term)")
+			c.stats["elections"]++
+			c.killCatchups()
+			sz := len(ens) + len(rem)
+			c.el = &election{term: md.Term, ens: ens, removed: rem, size: sz, majority: sz/2 + 1, resp: map[int]*ntResp{},
+				phase: "quorum", deleted: map[int]bool{}, swap: c.swapInFlight, inc: c.coordInc}
+		} else if md.Term > last.Term {
 			oldEns := c.ids(last.Ensemble)
 			from, to := 0, 0
 			for _, x := range oldEns {
@@ -600,7 +623,7 @@ func (c *cluster) harvestStores() {
 			}
 			sz := len(ens) + len(rem)
 			c.el = &election{term: md.Term, ens: ens, removed: rem, size: sz, majority: sz/2 + 1, resp: map[int]*ntResp{},
-				phase: "quorum", deleted: map[int]bool{}, swap: c.swapInFlight}
+				phase: "quorum", deleted: map[int]bool{}, swap: c.swapInFlight, inc: c.coordInc}
 		} else if md.Status == model.ShardStatusSteadyState && c.el != nil && md.Term == c.el.term {
 			c.el.phase = "done"
 		}
